@@ -81,12 +81,30 @@ def from_desc(d):
 def build_lib(d):
     from pyformlang.fst import FST
     f = FST()
-    for s in d["starts"]:
-        f.add_start_state(dec(s))
-    for s in d["finals"]:
-        f.add_final_state(dec(s))
+    # build order and interleaved queries vary with the description (deterministically): transitions first or
+    # markings first; in one mode the transducer translates while it is being built (results not used)
+    mode = len(d["trans"]) % 3
+    syms = [dec(a) for _p, a, _q, _o in d["trans"] if a is not None][:1]
+
+    def ask():
+        # only for descriptions inside the domain of translate (epsilon cycles write nothing): fst_desc sets "ask"
+        if d.get("ask") and mode != 1:
+            list(f.translate([]))
+            list(f.translate(syms))
+    def marks():
+        for s in d["starts"]:
+            f.add_start_state(dec(s))
+            ask()
+        for s in d["finals"]:
+            f.add_final_state(dec(s))
+            ask()
+    if mode != 1:
+        marks()
     for p, a, q, o in d["trans"]:
         f.add_transition(dec(p), "epsilon" if a is None else dec(a), dec(q), [dec(x) for x in o])
+        ask()
+    if mode == 1:
+        marks()
     return f
 
 
@@ -141,4 +159,5 @@ def fst_desc(draw, pool=None, max_states=3, max_trans=6):
         if t not in uniq:
             uniq.append(t)
     d["trans"] = uniq
+    d["ask"] = draw(st.booleans())      # translate while the transducer is being built (see build_lib)
     return d
